@@ -134,3 +134,38 @@ pub fn decoding_for_jwk(jwk: &Value) -> Option<DecodingKey> {
     let j = serde_json::from_value::<Jwk>(jwk.clone()).ok()?;
     DecodingKey::from_jwk(&j).ok()
 }
+
+/// another key of the same family (what a resolver must NOT be confused into returning)
+pub fn other_key_same_family(k: KeyId) -> KeyId {
+    match k {
+        KeyId::IssuerEc => KeyId::HolderEc,
+        KeyId::IssuerEd => KeyId::HolderEd,
+        KeyId::Hmac1 => KeyId::Hmac2,
+        KeyId::HolderEc => KeyId::IssuerEc,
+        KeyId::HolderEd => KeyId::IssuerEd,
+        KeyId::Hmac2 => KeyId::Hmac1,
+    }
+}
+
+/// the public key of an asymmetric issuer key in the byte forms an attacker knows: PEM text, DER SubjectPublicKeyInfo,
+/// and the raw key (65-byte uncompressed EC point / 32-byte Ed25519 key) — candidates for HMAC algorithm confusion
+pub fn public_key_materials(k: KeyId) -> Vec<(&'static str, Vec<u8>)> {
+    use base64::Engine;
+    let pem = match k {
+        KeyId::IssuerEc => ISSUER_EC_PUB,
+        KeyId::IssuerEd => ISSUER_ED_PUB,
+        _ => return vec![],
+    };
+    let body: String = pem.lines().filter(|l| !l.starts_with("-----")).collect();
+    let der = base64::engine::general_purpose::STANDARD.decode(body.as_bytes()).unwrap_or_default();
+    let raw_len = if k == KeyId::IssuerEc { 65 } else { 32 };
+    let mut out = vec![("pem", pem.as_bytes().to_vec()), ("pem-trimmed", pem.trim().as_bytes().to_vec())];
+    if der.len() >= raw_len {
+        out.push(("raw", der[der.len() - raw_len..].to_vec()));
+        if k == KeyId::IssuerEc {
+            out.push(("raw-x", der[der.len() - 64..der.len() - 32].to_vec()));
+        }
+        out.push(("der", der));
+    }
+    out
+}
